@@ -1,4 +1,4 @@
-import OrdModel.Proofs.WalletRunesSplit
+import OrdModel.Proofs.WalletRunesSplitTx
 import OrdModel.Generated.FundCallOrder
 /-!
 # C22 — Wallet rune sends, burns and splits move exactly the requested amounts
@@ -115,6 +115,38 @@ theorem c22_zero_rejected_partial (hfix : Generated.zeroAmountFixed = true)
     sendOrBurn Generated.zeroAmountFixed inv ids r 0 dest postage = .err "zero-amount" := by
   rw [hfix]; exact c22_zero_rejected_fixed inv ids r postage dest
 
+/-- **split**: for every inventory and every split file, when `split` yields a transaction its
+outputs are `[runestone] ++ [wallet change]? ++ [one output per split-file entry, in order]`
+(`base` = index of the first of those) and, for every rune id `q`: the `j`-th split output
+receives exactly what the file asks for it (`reqAt`, 0 for a rune it does not list), the OP_RETURN
+receives nothing, nothing is burned, and everything else on the spent inputs goes to the change
+output (output 1) — or there is nothing else and no change output. -/
+theorem c22_split (inv : List WOut) (ids : Nat → RuneId) (hg : GoodIds ids) (noLimit : Bool)
+    (postage : Option Nat) (changeDust : Nat) (outputs : List SplitOut) (tx : Tx)
+    (hok : split inv ids noLimit postage changeDust outputs = .ok tx)
+    (extra : List Bool) (added : RuneId → Nat) (hadded : ∀ q, added q = 0) (q : RuneId) :
+    ∃ (base : Nat) (dests : List OutK),
+      (base = 1 ∨ base = 2) ∧
+      tx.outs = (if base = 2 then [.stone, .change (postage.getD TARGET_POSTAGE)] else [.stone]) ++ dests ∧
+      (∀ (j : Nat) (o : SplitOut), outputs[j]? = some o → dests[j]? = some (OutK.dest j (o.value.getD o.dust))) ∧
+      needOf ids outputs q ≤ inputOf ids tx.inputs q + added q ∧
+      (Ord.Index.Spec.allocate (tx.opret ++ extra) tx.msg none q (inputOf ids tx.inputs q + added q)).burned = 0 ∧
+      (∀ j, (Ord.Index.Spec.allocate (tx.opret ++ extra) tx.msg none q (inputOf ids tx.inputs q + added q)).out (base + j)
+          = reqAt ids outputs j q) ∧
+      (Ord.Index.Spec.allocate (tx.opret ++ extra) tx.msg none q (inputOf ids tx.inputs q + added q)).out 0 = 0 ∧
+      (base = 2 → (Ord.Index.Spec.allocate (tx.opret ++ extra) tx.msg none q (inputOf ids tx.inputs q + added q)).out 1
+          = inputOf ids tx.inputs q + added q - needOf ids outputs q) ∧
+      (base = 1 → inputOf ids tx.inputs q + added q = needOf ids outputs q) :=
+  split_alloc inv ids hg noLimit postage changeDust outputs tx hok extra added hadded q
+
+/-- non-vacuity: two runes on three outputs, a file with two outputs; rune 5 is etched before
+rune 7 here (`exIds` is monotone), so the edict list is sorted and the assertion passes -/
+example : ∃ tx, split [⟨[(5, 40), (7, 1000)], false⟩, ⟨[(7, 500)], false⟩, ⟨[(5, 9)], true⟩] exIds true none 330
+      [⟨[(5, 10)], none, 294⟩, ⟨[(7, 1200)], some 1000, 330⟩] = .ok tx
+    ∧ tx.inputs.map (·.1) = [0, 1]
+    ∧ tx.outs = [.stone, .change 10000, .dest 0 294, .dest 1 1000] :=
+  ⟨_, rfl, by decide, by decide⟩
+
 /-- **split rejects zero**: a split file with a zero amount for any rune of any output never
 yields a transaction (error `ZeroValue`, or an earlier error/panic). -/
 theorem c22_split_zero_rejected (inv : List WOut) (ids : Nat → RuneId) (noLimit : Bool) (postage : Option Nat)
@@ -132,6 +164,7 @@ example : split [⟨[(7, 1000)], false⟩] exIds false none 330 [⟨[(7, 0)], no
 #print axioms c22_zero_burns_all_fails
 #print axioms c22_zero_rejected_fixed
 #print axioms c22_zero_rejected_partial
+#print axioms c22_split
 #print axioms c22_split_zero_rejected
 
 end Ord.Wallet.C22
